@@ -64,7 +64,7 @@ def _summary(g, max_paths):
                 continue
             return None                 # a store to a parameter, a field or memory other than *param
     try:
-        ps = P._enumerate_paths(g, limit=max_paths + 1, noreturn=("libast_fatal_error",))
+        ps = P._enumerate_paths(g, limit=max_paths + 1, noreturn=("libast_fatal_error",), decls=True)
     except Exception:
         return None
     if not ps or len(ps) > max_paths:
@@ -85,7 +85,7 @@ def _summary(g, max_paths):
                 keyv = ("deref", dp) if dp is not None else ("local", X.strip(n["ch"][0])["d"])
                 if n.get("op") != "=":
                     op = n["op"][:-1]
-                    if op not in ("+", "-"):
+                    if op not in ("+", "-", "|", "&"):
                         return None
                     cur = _subst(n["ch"][0], env, pds)
                     rhs = {"k": "bin", "op": op, "ch": [cur, rhs], "i": n["i"], "t": n.get("t"), "tw": n.get("tw"), "ts": n.get("ts")}
@@ -117,3 +117,39 @@ def bind(node, g, args):
                 return fold(t["ch"][0])
         return {k: (fold(v) if (isinstance(v, (dict, list)) and not k.startswith("_") and k not in ("flagdef", "maskdef", "m")) else v) for k, v in n.items()}
     return fold(n2)
+
+
+def const_eval(n):
+    """integer value of an expression built from constants with + - | & (also the synthetic nodes of summary()), else None"""
+    cv = X.const_val(n)
+    if cv is not None:
+        return cv
+    s_ = X.strip(n)
+    if s_ is None:
+        return None
+    cv = X.const_val(s_)
+    if cv is not None:
+        return cv
+    if s_.get("k") == "bin" and s_.get("op") in ("+", "-", "|", "&"):
+        a, b = const_eval(s_["ch"][0]), const_eval(s_["ch"][1])
+        if a is None or b is None:
+            return None
+        return {"+": a + b, "-": a - b, "|": a | b, "&": a & b}[s_["op"]]
+    return None
+
+
+def verdict_paths(g, args):
+    """[(constant the helper returns, [(test at the call site, truth)])] for a helper that classifies its arguments into a small
+    integer (a "which side is missing" mask built with |=), or None when it is not of that shape"""
+    summ = summary(g)
+    if not summ:
+        return None
+    out = []
+    for tests, stores, ret in summ:
+        if stores or ret is None:
+            return None
+        v = const_eval(ret)
+        if v is None:
+            return None
+        out.append((v, [(bind(c, g, args), t) for c, t in tests]))
+    return out
